@@ -28,7 +28,9 @@ def base_vad():
              {"name": "\\inst/x", "module": "leaf", "attrs": {"dont_touch": '"true"', "bare": None, "after": '"x y"'},
               "conns": [["i", [["net", "\\esc.in"]]], ["o", [["net", "\\q[3]"]]], ["d", [["bit", "w", 1], ["net", "\\q[3]"]]]]},
              {"name": "m0", "module": "mid", "empty_params": True, "conns": [["p", [["range", "w", 1, 0]]], ["r", [["range", "r", 5, 4]]], ["al", [["bit", "b", 0], ["net", "a"]]],
-                                                      ["p2", [["bit", "r", 3], ["bit", "b", 2]]], ["al1", [["net", "s1"]]]]},
+                                                      ["p2", [["bit", "r", 3], ["bit", "b", 2]]], ["al1", [["net", "s1"]]],
+                                                      ["q4", [["bit", "n2", 7], ["bit", "n2", 5], ["bit", "n2", 6], ["bit", "n2", 4]]],
+                                                      ["ca", [["bit", "v", 1]]], ["cb", [["bit", "v", 0]]]]},
              {"name": "p0", "module": "prim", "conns": [["x", [["c", 0]]], ["z", [["bit", "b", 2], ["c", 1]]], ["q", []]]},
              {"name": "p1", "module": "prim", "conns": [["x", [["bit", "r", 3]]], ["z", [["range", "b", 1, 0]]]]},
              # the four-valued constants in both spellings of the value letter
@@ -42,7 +44,10 @@ def base_vad():
                      # bits of one bus assigned from other bits of the same bus
                      [[["range", "n2", 5, 4]], [["range", "n2", 7, 6]]], [[["bit", "v", 1]], [["bit", "v", 0]]]]},
         {"name": "leaf", "celldefine": True, "ports": [["i", "in", None, None], ["o", "out", None, None], ["d", "out", 1, 0]]},
-        {"name": "mid", "ports": [["p", "in", 1, 0], ["p2", "in", 1, 0], ["r", "out", 1, 0], ["al", "in", None, None, ["hi", "lo"]], ["al1", "in", None, None, ["one"]]],
+        {"name": "mid", "ports": [["p", "in", 1, 0], ["p2", "in", 1, 0], ["r", "out", 1, 0], ["al", "in", None, None, ["hi", "lo"]], ["al1", "in", None, None, ["one"]],
+                                  # a four-bit port (fed from one bus with its inner bits exchanged), and two header ports
+                                  # each of which is an alias of the net named like the other
+                                  ["q4", "in", 3, 0], ["ca", "in", None, None, ["cb"]], ["cb", "out", None, None, ["ca"]]],
          "insts": [{"name": "l", "module": "leaf", "conns": [["i", [["bit", "p", 0]]], ["d", [["net", "r"]]]]},
                    {"name": "l2", "module": "leaf", "conns": [["i", [["net", "hi"]]], ["o", [["net", "lo"]]]]},
                    {"name": "l3", "module": "leaf", "conns": [["i", [["bit", "p2", 1]]], ["d", [["net", "p2"]]]]},
